@@ -33,7 +33,7 @@ Definition xr_alive (r : xrow) : bool := snd r.
 
 (* DocToOpstampMapping::is_deleted *)
 Definition is_deleted (m : option N) (delete_opstamp : N) : bool :=
-  match m with Some doc_opstamp => doc_opstamp <=? delete_opstamp | None => true end.
+  match m with Some doc_opstamp => doc_opstamp <? delete_opstamp | None => true end.
 Definition hits (o : delop) (r : xrow) : bool := matches (del_q o) (xr_doc r) && is_deleted (xr_op r) (del_op o).
 Definition kill (o : delop) (r : xrow) : xrow := if hits o r then (fst r, false) else r.
 
